@@ -323,3 +323,27 @@ B("b06", ["C07"], PVI, "        prev_index = (history_index + 1) % (period + 1)"
 B("b23", ["C07"], PVI, "            period_deltas += (values_curr - values_prev) / (\n                gamma ** (iteration - p - 1)\n            )",
   "            period_deltas += (values_curr - values_prev) * gamma ** (p + 1 - iteration)", "division by a power written as a negative power")
 B("b24", ["C07"], PVI, "            prev_index = (curr_index - 1) % (period + 1)", "            prev_index = (history_index - p - 1) % (period + 1)", "prev index computed directly")
+
+# =============================================================================== C05
+M("m25", "C05", "R5.3", PI, "        n_changed = jnp.any(new_policy != self.policy, axis=1).sum()", "        n_changed = jnp.all(new_policy != self.policy, axis=1).sum()",
+  "any -> all over action components (all tested problems have 1-component actions)")
+M("m26", "C05", "R5.1", PI, "        batch_actions = policy[batch_indices]  # Already contains action vectors", "        batch_actions = policy[: state_batch.shape[0]]",
+  "positional policy slice instead of lookup by state index (single unpadded batch in every PI test)")
+M2("m27", "C05", "R5.5", [
+    (PI, "        self.values = jnp.zeros(self.problem.n_states)\n        self.policy = self._initialize_policy()\n        self.values = self._initialize_values(self.batched_states)\n",
+     "        self.values = self._initialize_values(self.batched_states)\n        self.policy = self._initialize_policy()\n", None)],
+   "real initial values assigned before the fall-back policy is extracted (only Hendrix has non-zero ones)")
+M("m28", "C05", "R5.5", PI, "        except NotImplementedError:\n", "        except Exception:\n", "fallback on any exception")
+M("m29", "C05", "R5.4", PI,
+  "        self.values = self._evaluate_policy(self.policy)\n\n        # Improve policy using parent's policy extraction\n        new_policy = self._extract_policy()\n",
+  "        # Improve policy using parent's policy extraction\n        new_policy = self._extract_policy()\n        self.values = self._evaluate_policy(self.policy)\n",
+  "improvement before evaluation", survives="no")
+M("m29b", "C05", "R5.2", PI, "            new_values = self._calculate_policy_values(policy, values)", "            new_values = self._calculate_policy_values(policy, self.values)",
+  "evaluation loop never chains its iterates")
+M("m29c", "C05", "R5.1", PI, "        )(state_batch, batch_actions, random_events, gamma, values)\n\n        return carry, new_values",
+  "        )(state_batch, batch_actions, random_events, 1.0, values)\n\n        return carry, new_values", "evaluation kernel ignores gamma", survives="no")
+M("m29d", "C05", "R5.3", PI, "        n_changed = jnp.any(new_policy != self.policy, axis=1).sum()", "        n_changed = jnp.any(new_policy[:, :1] != self.policy[:, :1], axis=1).sum()",
+  "only the first action component compared")
+M("m29e", "C05", "R5.2", PI, "        for eval_iter in range(self.config.max_eval_iter):", "        for eval_iter in range(self.config.max_eval_iter + 1):", "evaluation budget off by one")
+B("b25", ["C05"], PI, "        n_changed = jnp.any(new_policy != self.policy, axis=1).sum()", "        n_changed = jnp.sum(jnp.any(new_policy != self.policy, axis=1))", "sum spelled as a function")
+B("b26", ["C05"], PI, "        n_changed = jnp.any(new_policy != self.policy, axis=1).sum()", "        n_changed = (new_policy != self.policy).sum()", "total number of changed components")
